@@ -518,6 +518,34 @@ def deadline_validate(ctx, n, only=None):
     ctx.extra["deadline_executions_replayed_through_WSDeadline"] = rep.get("distinct", 0)
     ctx.extra["deadline_events"] = rep.get("extra", {}).get("deadline_events")
     absorb_rejections(ctx, rej, "TraceDeadline", trace, only=only)
+    if rej:
+        return
+    # binding self-test (DESIGN 9): one recorded field corrupted -- the entry check of a call that found its deadline passed (the
+    # last SetDeadline of that direction was for a time in the past) is turned into "not expired" -- must make the trace a
+    # non-behaviour at exactly that line; if TLC accepts it the trace specification constrains nothing and the check is broken
+    lines = open(trace).read().splitlines()
+    last_cls, victim = None, None
+    for i, l in enumerate(lines):
+        if '"NcReset"' in l:
+            last_cls = None
+        elif '"NcSetBegin"' in l:
+            last_cls = json.loads(l)["b"]
+        elif '"NcEntry"' in l and last_cls == 1 and json.loads(l)["b"] == 1:
+            victim = i
+            break
+    if victim is None:
+        ctx.extra["deadline_binding_selftest"] = "no candidate line in this run"
+        return
+    e = json.loads(lines[victim])
+    e["b"] = 0
+    bad = ctx.path("ncconc_corrupt.ndjson")
+    open(bad, "w").write("\n".join(lines[:victim] + [json.dumps(e)] + lines[victim + 1:victim + 40]) + "\n")
+    rec, out = ctx.tlc("TraceDeadline", "TraceDeadline.cfg", env={"TRACE_FILE": bad, "JAVA_TOOL_OPTIONS": "-Dtlc2.tool.queue.IStateQueue=StateDeque"},
+                       workers=1, expect_ok=False, name="TraceDeadline(corrupted: must be rejected)", timeout=600)
+    rej2 = [int(a) for a, b, c in REJ.findall(out)]
+    if rej2 != [victim + 1]:
+        raise Infra("binding self-test failed: a corrupted deadline trace was not rejected at the corrupted line (%s)" % rej2)
+    ctx.extra["deadline_binding_selftest"] = "corrupted NcEntry at line %d rejected there" % (victim + 1)
 
 
 def split_by_conn(src, dst):
